@@ -1,1 +1,5 @@
-/- C14 — property theorems (stub: the slice is not built yet). -/
+import GB.C14.Spec
+/- C14 — property theorems (being built). -/
+open GB GB.C14
+
+theorem C14_placeholder : parseRPCName [] = none := rfl
